@@ -6,7 +6,8 @@ import N0Verif.Proofs.TlvGenEq
 
 Only property statements live here; helper lemmas are in `Proofs/Tlv.lean`, `Proofs/Fwf.lean`.
 The models follow the code with the fixes C16-a (`parse_tlv` rejects a negative length),
-C16-b (`load_fwf` appends a tuple to `failed_rows`) and C16-c (`generate_tlv` refuses a
+C16-b (`load_fwf` appends a tuple to `failed_rows`), C16-d (a failed validation of a column
+without `error_message` contributes a default message instead of raising `TypeError`) and C16-c (`generate_tlv` refuses a
 `len_padding` that `int()` does not read through: probe `int(pad + pad + '1') == 1`) applied.
 Paddings are in the scope of the `int()` model (`padInScope`: Latin-1 or a listed blank); a
 Unicode decimal zero such as U+0660, which the real `int()` reads through, is outside it.
@@ -388,18 +389,111 @@ theorem C16_fwf_absent_is_filler (rec : Rec) (fmt : List GCol) (ch : Char) (text
 theorem C16_fwf_cell_size (isInt : Bool) (size : Nat) (sv : Str) :
     (padOrTrunc isInt size sv).length = size := padOrTrunc_length isInt size sv
 
-/-- **C16 (every row exactly once).**  If `load_fwf` returns, then — with the header layout for
-the first line, the footer layout for the last one and the body layout in between (defaults as in
+/-- **C16 (a failing validation never raises; fix C16-d).**  In the model's scope (a row of text,
+offsets / widths natural numbers or `None`, validations total functions, `error_message` a string
+or absent) `parse_fwf_row` has exactly one way of raising: `SyntaxError` for an empty layout.  In
+particular no `TypeError`, whatever validations fail and whether or not the column names an
+`error_message`.  (On the real code the other exceptions that remain possible come from outside
+this scope: whatever an `eval`'d validation expression itself raises — `SyntaxError`, `NameError`,
+… —, `TypeError` for an offset / width / till that is not an integer, for an `error_message` that
+is neither `None` nor a string, or for a row that cannot be sliced.) -/
+theorem C16_fwf_parse_raises_only_empty_layout (row : Str) (fmt : List PCol) (validate : Bool) :
+    (∀ e, parseRow row fmt validate = .error e ↔ (e = .SyntaxError ∧ fmt = []))
+    ∧ parseRow row fmt validate ≠ .error .TypeError
+    ∧ (fmt ≠ [] → ∃ res, parseRow row fmt validate = .ok res) := by
+  refine ⟨fun e => ⟨parseRow_error row validate fmt e, ?_⟩, ?_, fun h => ⟨_, parseRow_ok row validate fmt h⟩⟩
+  · rintro ⟨rfl, rfl⟩; rfl
+  · intro h
+    have := (parseRow_error row validate fmt _ h).1
+    cases this
+
+/-- **C16 (every row is classified; fix C16-d).**  With validation on and a non-empty layout a row
+is accepted — one entry per column, in layout order — iff every validation of every column holds
+(each seeing the columns parsed before it: `allValid`), and rejected with the row itself and a
+message otherwise: there is no third outcome. -/
+theorem C16_fwf_row_classified (row : Str) (fmt : List PCol) (hne : fmt ≠ []) :
+    (allValid row fmt [] = true →
+      parseRow row fmt true = .ok (.parsed (fmt.map (fun c => (c.name, colValue row c)))))
+    ∧ (allValid row fmt [] = false → ∃ msg, parseRow row fmt true = .ok (.rejected row msg)) := by
+  rw [parseRow_ok row true fmt hne]
+  obtain ⟨h1, h2⟩ := parseCols_classify row fmt []
+  refine ⟨fun h => ?_, fun h => ?_⟩
+  · rw [h1 h]; simp
+  · obtain ⟨msg, hm⟩ := h2 h
+    exact ⟨msg, by rw [hm]⟩
+
+/-- the message of a rejected row: one entry per failed validation of the first column that has a
+failed validation, joined with `';'` — the column's `error_message` when it has one, else
+`"Validation rule #<index> for '<column>' failed"` -/
+theorem C16_fwf_reject_message (c : PCol) (v : Option Str) (row : Str) (acc : Row) :
+    (failedMsgs c v row acc 0 c.validations).length
+        = (c.validations.filter (fun f => !f v row acc)).length
+    ∧ (∀ i, failMsg c i = match c.errorMessage with
+        | some m => m
+        | none => "Validation rule #".toList ++ natRepr i ++ " for '".toList ++ c.name ++ "' failed".toList) :=
+  ⟨failedMsgs_length c v row acc 0 c.validations, fun _ => rfl⟩
+
+/-- the audit's witness: column `a` with `validations = ["column_value == 'ok'"]` and no
+`error_message`.  Before fix C16-d the row `'no'` raised `TypeError` (`";".join([None])`); now it
+is rejected with the default message, and the file `ok / no / ok` loads with the middle line
+reported once -/
+theorem C16_fwf_nomsg_witness :
+    let fmt : List PCol :=
+      [{ name := ['a'], offset := some 0, width := some 2, till := none,
+         validations := [fun v _ _ => v == some ['o', 'k']], errorMessage := none }]
+    let msg : Str := -- "Validation rule #0 for 'a' failed"
+      ['V', 'a', 'l', 'i', 'd', 'a', 't', 'i', 'o', 'n', ' ', 'r', 'u', 'l', 'e', ' ', '#', '0', ' ', 'f', 'o', 'r', ' ', '\'', 'a', '\'', ' ', 'f', 'a', 'i', 'l', 'e', 'd']
+    parseRow ['n', 'o'] fmt true = .ok (.rejected ['n', 'o'] msg)
+    ∧ loadFwf [['o', 'k'], ['n', 'o'], ['o', 'k']] fmt [] [] true none
+      = .ok { accepted := [[(['a'], some ['o', 'k'])], [(['a'], some ['o', 'k'])]],
+              rejected := [{ line := some 2, row := ['n', 'o'], msg := msg }] } := by
+  decide
+
+/-! Non-vacuity (classification): both outcomes occur, with and without `error_message`, with
+several failed validations, and a later column sees the earlier ones -/
+def exVCols : List PCol :=
+  [{ name := ['a'], offset := some 0, width := some 1, till := none,
+     validations := [fun v _ _ => v == some ['x'], fun v _ _ => v != some ['y']], errorMessage := some ['E'] },
+   { name := ['b'], offset := some 1, width := none, till := some 2,
+     validations := [fun _ _ acc => acc.length == 1, fun v _ _ => v == some ['1']], errorMessage := none }]
+
+example : allValid ['x', '1'] exVCols [] = true := by decide
+example : parseRow ['x', '1'] exVCols true = .ok (.parsed [(['a'], some ['x']), (['b'], some ['1'])]) := by decide
+example : allValid ['y', '1'] exVCols [] = false := by decide
+example : parseRow ['y', '1'] exVCols true = .ok (.rejected ['y', '1'] ['E', ';', 'E']) := by decide
+example : allValid ['x', '2'] exVCols [] = false := by decide
+example : parseRow ['x', '2'] exVCols true = .ok (.rejected ['x', '2']
+    -- "Validation rule #1 for 'b' failed"
+    ['V', 'a', 'l', 'i', 'd', 'a', 't', 'i', 'o', 'n', ' ', 'r', 'u', 'l', 'e', ' ', '#', '1', ' ', 'f', 'o', 'r', ' ',
+     '\'', 'b', '\'', ' ', 'f', 'a', 'i', 'l', 'e', 'd']) := by decide
+example : parseRow ['y', '2'] exVCols false = .ok (.parsed [(['a'], some ['y']), (['b'], some ['2'])]) := by decide
+example : parseRow ['y', '2'] [] true = .error .SyntaxError := by decide
+example : loadFwf [['x', '1']] [] exVCols exVCols true none = .error .SyntaxError := by decide
+
+/-- `load_fwf` (over the lines read) raises only `SyntaxError`, and only for a missing header
+layout: no line of text can make it raise -/
+theorem C16_fwf_load_raises_only_without_header (lines : List Str) (hdr body ftr : List PCol)
+    (validate : Bool) (ret : Option Str) :
+    (∀ e, loadFwf lines hdr body ftr validate ret = .error e ↔ (e = .SyntaxError ∧ hdr = []))
+    ∧ (hdr ≠ [] → ∃ st, loadFwf lines hdr body ftr validate ret = .ok st) := by
+  refine ⟨fun e => ⟨loadFwf_error lines hdr body ftr validate ret e, ?_⟩,
+    loadFwf_total lines hdr body ftr validate ret⟩
+  rintro ⟨rfl, rfl⟩
+  simp [loadFwf]
+
+/-- **C16 (every row exactly once).**  Whenever a header layout is given, `load_fwf` returns (fix
+C16-d: no line and no failing validation makes it raise) and — with the header layout for the
+first line, the footer layout for the last one and the body layout in between (defaults as in
 the code) — `successfully_parsed_rows` is exactly the list of the rows that non-blank lines parse
 to, `failed_rows` exactly the list of the non-blank lines whose validation failed, both in file
-order; every non-blank line parsed without raising and contributes to exactly one of the two
-lists (so their lengths add up to the number of non-blank lines), and a rejected entry carries its
-own line. -/
+order; every non-blank line contributes to exactly one of the two lists (so their lengths add up
+to the number of non-blank lines), and a rejected entry carries its own line. -/
 theorem C16_fwf_every_row_once (lines : List Str) (hdr body ftr : List PCol) (validate : Bool)
-    (ret : Option Str) (st : Loaded) (h : loadFwf lines hdr body ftr validate ret = .ok st) :
+    (ret : Option Str) (hh : hdr ≠ []) :
     let body' := if body.isEmpty then hdr else body
     let ftr' := if ftr.isEmpty then body' else ftr
-    st.accepted = lines.zipIdx.filterMap (accOf hdr body' ftr' validate ret lines.length)
+    ∃ st, loadFwf lines hdr body ftr validate ret = .ok st
+    ∧ st.accepted = lines.zipIdx.filterMap (accOf hdr body' ftr' validate ret lines.length)
     ∧ st.rejected = lines.zipIdx.filterMap (rejOf hdr body' ftr' validate lines.length)
     ∧ (∀ x ∈ lines.zipIdx, x.1.isEmpty = false →
         (∃ r, accOf hdr body' ftr' validate ret lines.length x = some r
@@ -408,6 +502,10 @@ theorem C16_fwf_every_row_once (lines : List Str) (hdr body ftr : List PCol) (va
               ∧ accOf hdr body' ftr' validate ret lines.length x = none))
     ∧ st.accepted.length + st.rejected.length = (lines.filter (fun l => !l.isEmpty)).length
     ∧ (validate = false → st.rejected = []) := by
+  intro body' ftr'
+  obtain ⟨st, h⟩ := loadFwf_total lines hdr body ftr validate ret hh
+  refine ⟨st, h, ?_⟩
+  revert body' ftr'
   intro body' ftr'
   have key : st.accepted = lines.zipIdx.filterMap (accOf hdr body' ftr' validate ret lines.length)
       ∧ st.rejected = lines.zipIdx.filterMap (rejOf hdr body' ftr' validate lines.length)
